@@ -1,6 +1,7 @@
 //! E1 — schema-directed dynamic serde shape engine (C01, C05, C13, C17).
 mod c01;
 mod c05;
+mod c13;
 mod dynamic;
 mod space;
 mod twins;
@@ -14,6 +15,7 @@ fn main() {
     let report: Report = match args.property.as_str() {
         "C01" => c01::run(&args),
         "C05" => c05::run(&args),
+        "C13" => c13::run(&args),
         other => panic!("shapes: unknown property {}", other),
     };
     report.write(&args.out);
